@@ -589,6 +589,8 @@ def st_params(draw, modes=('queue', 'skipqueue', 'noqueue'), stab_bias=False,
             hf = 'orphan'
         elif k == 1 and any(d[1] is not None for d in devs):
             hf = 'online'
+        elif k == 2 and any(d[1] is not None for d in devs):
+            hf = 'both'
     mode = draw(st.sampled_from(modes))
     settings = {}
     if draw(st.integers(0, 3)) == 0:
